@@ -24,6 +24,25 @@ def shards_for(run: Run) -> list[dict]:
                 "sample_at": 300 * j, "maxdepth": 4,
             }
         )
+    for j in range(16):
+        shards.append(
+            {
+                "prop": PROP, "judges": JUDGES, "modes": MODES, "source": "stackscen", "seed": seed_int(PROP, run.seed, "sc", j),
+                "count": run.pick(70, 900), "cap": run.pick(260, 600), "maxlen": 5, "sample_at": 10**9,
+            }
+        )
+        shards.append(
+            {
+                "prop": PROP, "judges": JUDGES, "modes": MODES, "source": "random", "profile": "stack", "profile_overrides": {"push_empty": True},
+                "seed": seed_int(PROP, run.seed, "pe", j), "count": run.pick(30, 400), "cap": run.pick(200, 500), "maxlen": 5, "sample_at": 10**9,
+            }
+        )
+    dig = list(range(G.stack_dig_size()))
+    random.Random(seed_int(PROP, run.seed, "dig")).shuffle(dig)
+    if run.quick:
+        dig = dig[:1600]
+    for j in range(16):
+        shards.append({"prop": PROP, "judges": JUDGES, "modes": MODES, "source": "stackdig", "indices": dig[j::16], "seed": seed_int(PROP, run.seed, "dg", j), "cap": 40, "maxlen": 2, "sample_at": 10**9})
     idx = list(range(G.matrix_size()))
     rnd = random.Random(seed_int(PROP, run.seed, "m"))
     rnd.shuffle(idx)
